@@ -48,7 +48,7 @@ T = {
  "C13": ("CPUID trap monitor (arch_prctl ARCH_SET_CPUID): logs every CPUID (leaf, sub-leaf register) during init, serves emulated CPU models, injects register/stack garbage; XGETBV emulated and VEX/EVEX instructions watched by single-stepping (EFLAGS.TF); selected back end read from the handle",
          "Exploration over calling contexts (register and stack garbage) x emulated CPU models x all six init functions, repeated; behavioural check of parallel_size.",
          "Emulated models on one physical CPU; XGETBV cannot be trapped.", "3/C13"),
- "C14": ("twin-history monitor: history with invalid calls vs the same history without them on the same back end; guard buffers, crash containment",
+ "C14": ("twin-history monitor: history with invalid calls vs the same history without them on the same back end; guard buffers, crash containment; failed-init objects produced by allocation-fault injection",
          "Exploration over histories x invalid-argument classes x object states for CTR, parallel-ECB and key-schedule functions.",
          "'Unchanged' is the property's own definition: identical later results.", "3/C14"),
  "C15": ("allocator event-log monitor (link-time --wrap) with conservation/exactly-once checker, PROT_NONE quarantine of freed blocks, inert-handle cleanup on a PROT_READ copy, ASan",
@@ -60,7 +60,7 @@ T = {
  "C17": ("monitor at free(): every block the library releases is scanned for non-zero bytes before release, on -O3 gcc and clang builds",
          "Exploration over histories ending in cleanup for every object kind and back end with all fields non-zero beforehand (non-vacuity measured).",
          "Block sizes known from the matching allocation event.", "3/C17"),
- "C18": ("ThreadSanitizer (gcc and clang) and helgrind over 16-thread workloads (incl. first-ever calls made concurrently and 64 KiB+ requests) + sequential-equivalence oracle + mprotect(PROT_READ) of shared parallel-ECB state during read-only calls, positive control race",
+ "C18": ("ThreadSanitizer (gcc and clang) and helgrind over 16-thread workloads (incl. first-ever calls made concurrently, key-setup storms, 64 KiB+ requests; a -fno-builtin TSan build) + sequential-equivalence oracle + mprotect(PROT_READ) of shared parallel-ECB state during read-only calls, positive control race",
          "Exploration over schedules: distinct objects, shared read-only schedules/parallel objects, concurrent init/cleanup storms; overlap measured.",
          "Interleavings are sampled; happens-before detection needs an overlapping schedule, which the workloads provoke.", "3/C18"),
  "C19": ("differential monitor: Arduino C++ classes compiled for the host vs the C library and the models over generated op sequences",
